@@ -178,6 +178,10 @@ fn cov_bytes(f: u8, a: u16, b: u16) -> Vec<u8> {
                 }
             }
             _ => {
+                if b % 2 == 0 {
+                    // a run of whole instructions replaced by loops and no-ops of the same length
+                    return crate::vmgen::near_miss_std(((a as u64) << 16) | b as u64);
+                }
                 let n = v.len();
                 v[(a as usize * 31 + b as usize) % n] = (b >> 8) as u8 ^ (b as u8);
             }
@@ -352,7 +356,8 @@ pub fn run(ctx: &Ctx) -> (Outcome, String, Option<bool>) {
         },
     );
     out.absorb(o);
-    let rule = "Two generators. (1) Histories as for C01 on four network classes with fee classes min / min+1 / min+tip and the fee-1 mutation, with and without proposer actions. (2) Single transactions of every shape built as faucets on a custom network: 0-255 outputs, data 0-4 KiB, 0-4 covenants with weights from 1 to saturation (nested 65535-iteration loops) including undecodable ones and the standard signature covenants, genuine and as near-misses (same length and prefix with another tail, or one byte changed), 0-3 signatures, multipliers {0,1,2,100,65535,65536,10^6,2^40,2^64,2^100}, fee at min-1 / min / min+1 / min+tip where min is taken at the fixed point of weight->fee->encoding. Oracle: min = floor(sat(weight x multiplier)/65536) with weight = stdcode length + sum of RefVM covenant weights + 1000 x outputs - 1000 x inputs floored at 0; accepted => fee >= min; fee >= min is never rejected for insufficient fees; fee pool grows by exactly min and tips by fee - min (view hook); sealing with an action creates one coin at proposer_reward(height) worth (fee pool of the same block sealed without action) >> 16 plus all tips, the header's fee pool is lower by exactly that first term, tips are zero afterwards; no action => no reward coin (what happens to uncollected tips is not specified by the property). Non-trivial = fee within +-1 of a non-zero minimum, or a block sealed with an action and non-zero tips.".to_string();
+    out.absorb(super::hist::run_sampled_heights(ctx, &profile(), ctx.scale(150, 1500), C05::default));
+    let rule = "Also: the first phase's kind of histories on mainnet/testnet (85%) started at a height sampled anywhere below 2 000 000 (TIP-906 barrier crossed honestly first). Two generators. (1) Histories as for C01 on four network classes with fee classes min / min+1 / min+tip and the fee-1 mutation, with and without proposer actions. (2) Single transactions of every shape built as faucets on a custom network: 0-255 outputs, data 0-4 KiB, 0-4 covenants with weights from 1 to saturation (nested 65535-iteration loops) including undecodable ones and the standard signature covenants, genuine and as near-misses (same length and prefix with another tail, or one byte changed), 0-3 signatures, multipliers {0,1,2,100,65535,65536,10^6,2^40,2^64,2^100}, fee at min-1 / min / min+1 / min+tip where min is taken at the fixed point of weight->fee->encoding. Oracle: min = floor(sat(weight x multiplier)/65536) with weight = stdcode length + sum of RefVM covenant weights + 1000 x outputs - 1000 x inputs floored at 0; accepted => fee >= min; fee >= min is never rejected for insufficient fees; fee pool grows by exactly min and tips by fee - min (view hook); sealing with an action creates one coin at proposer_reward(height) worth (fee pool of the same block sealed without action) >> 16 plus all tips, the header's fee pool is lower by exactly that first term, tips are zero afterwards; no action => no reward coin (what happens to uncollected tips is not specified by the property). Non-trivial = fee within +-1 of a non-zero minimum, or a block sealed with an action and non-zero tips.".to_string();
     (out, rule, None)
 }
 
@@ -362,7 +367,7 @@ pub fn replay(case: &serde_json::Value) -> Check {
         return check_shape(&s, &mut st, 200);
     }
     if case.get("cfg").is_some() {
-        return super::hist::replay_history(case, &profile(), C05::default());
+        return super::hist::replay_any(case, &profile(), &profile(), C05::default());
     }
     Err(Violation::new("replay-format", "cannot interpret replay case"))
 }
